@@ -16,7 +16,8 @@ def main():
     pid = p['id']
     path = os.path.join(VERIF, 'checks', pid.lower() + '.py')
     mod = None
-    if os.path.exists(path):
+    registered = set(open(os.path.join(VERIF, 'checks', 'REGISTERED')).read().split())
+    if os.path.exists(path) and pid in registered:
       mod = importlib.import_module('checks.' + pid.lower())
     if mod is None or getattr(mod, 'NOT_APPLICABLE', None):
       na.append(dict(property_id=pid, reason=getattr(mod, 'NOT_APPLICABLE', None) or
